@@ -503,6 +503,7 @@ public:
                                     J.attribute("name", F->getNameAsString());
                                     J.attribute("did", C.declId(F));
                                     J.attribute("t", C.typeStr(F->getType()));
+                                    if (F->isMutable()) J.attribute("mutable", true);
                                     D.loc(F->getLocation());
                                     if (F->hasInClassInitializer() && F->getInClassInitializer())
                                         J.attributeArray("c", [&] { D.stmt(F->getInClassInitializer()); });
